@@ -12,6 +12,8 @@ Line protocol:
   parse <doc> <doc>…                  doc = x:<layout>:<suite>/<suite>…   layout = flat | suites | bare | nested
                                             suite = "-" | xcase;xcase…   xcase = <hexcls>.<hexname>.<m><ff><fe><rf><re>
                                             (m = mask of failure/error/skipped elements, then four counts 0-9)
+                                          | t:tree:<tree>  (one <testsuite> root, suites nested to any depth)
+                                          | t:trees:<tree><tree>…  (<testsuites> root);  tree = "(" suite tree… ")"
                                           | g:<gcase>;<gcase>…           gcase = <hexname>.<P|F|S|U>
 Output: cases=<cases> tests=N pass=N fail=N err=N skip=N flaky=N all=0|1
 -/
@@ -71,6 +73,33 @@ def parseXCase (t : String) : Option XCase :=
 def parseXSuite (s : String) : Option (List XCase) :=
   if s = "-" then some [] else (s.splitOn ";").mapM parseXCase
 
+/-- Suite trees: tree = "(" cases children… ")" with cases = "-" | xcase;xcase… ; several trees are juxtaposed. -/
+structure TreeSt where
+  stack : List (List Char × List XSuite)   -- per open suite: its case text (reversed), its children so far (reversed)
+  roots : List XSuite                      -- finished top-level suites (reversed)
+
+def treeStep (st : Option TreeSt) (c : Char) : Option TreeSt := do
+  let st ← st
+  if c = '(' then pure { st with stack := ([], []) :: st.stack }
+  else if c = ')' then
+    match st.stack with
+    | [] => none
+    | (txt, kids) :: rest =>
+      let cases ← parseXSuite (String.ofList txt.reverse)
+      let node := XSuite.mk cases kids.reverse
+      match rest with
+      | [] => pure { stack := [], roots := node :: st.roots }
+      | (t2, k2) :: rest2 => pure { st with stack := (t2, node :: k2) :: rest2 }
+  else
+    match st.stack with
+    | (txt, []) :: rest => pure { st with stack := (c :: txt, []) :: rest }
+    | _ => none
+
+def parseTrees (s : String) : Option (List XSuite) :=
+  match s.toList.foldl treeStep (some ⟨[], []⟩) with
+  | some ⟨[], roots⟩ => if roots.isEmpty then none else some roots.reverse
+  | _ => none
+
 def parseGo (t : String) : Option Case :=
   match t.splitOn "." with
   | [n, r] => do
@@ -86,13 +115,21 @@ def parseDoc (d : String) : Option (List Case) :=
   | ["x", layout, suites] => do
     let ss ← (suites.splitOn "/").mapM parseXSuite
     match layout with
-    | "flat" => pure ((XSuite.mk ss.flatten []).cases Generated.C26.nestedSuiteField)
-    | "suites" => pure (ss.flatMap fun s => (XSuite.mk s []).cases Generated.C26.nestedSuiteField)
+    | "flat" => pure ((XSuite.mk ss.flatten []).casesMode Generated.C26.nestedTraversal)
+    | "suites" => pure (ss.flatMap fun s => (XSuite.mk s []).casesMode Generated.C26.nestedTraversal)
     | "bare" => if ss.flatten.isEmpty then none else pure (ss.flatten.map (bareCase Generated.C26.bareCaseFields))
     | "nested" =>
       match ss with
       | [] => none
-      | outer :: inner => pure ((XSuite.mk outer (inner.map fun s => XSuite.mk s [])).cases Generated.C26.nestedSuiteField)
+      | outer :: inner => pure ((XSuite.mk outer (inner.map fun s => XSuite.mk s [])).casesMode Generated.C26.nestedTraversal)
+    | _ => none
+  | ["t", layout, trees] => do
+    let ts ← parseTrees trees
+    match layout with
+    | "tree" => match ts with
+      | [t] => pure (t.casesMode Generated.C26.nestedTraversal)
+      | _ => none
+    | "trees" => pure (ts.flatMap fun t => t.casesMode Generated.C26.nestedTraversal)
     | _ => none
   | ["g", cases] => if cases = "-" then some [] else (cases.splitOn ";").mapM parseGo
   | _ => none
